@@ -679,13 +679,14 @@ QBig ==
                     relform == e.form = "rel"
                     \* the harness must have passed base + rel (or rel itself)
                     argok == \A j \in K : e.args[j] = (IF relform THEN BigAdd(base, e.rel[j]) ELSE SmallNum(e.rel[j]))
+                    fill == IF Has(d, "fill") THEN d.fill ELSE 0
                     cl(j) == LET r == e.rel[j]
-                             IN  IF e.m = "get" THEN BigGet(T, r)
-                                 ELSE IF e.m = "rank1" THEN BigRank1(T, P1, r)
-                                 ELSE IF e.m = "rank0" THEN BigRank0(base, T, P1, r)
-                                 ELSE IF e.m = "select1" THEN BigSelect1(base, P1, r)
-                                 ELSE IF relform THEN BigSelect0Rel(base, P0, r)
-                                 ELSE BigSelect0Abs(r)
+                             IN  IF e.m = "get" THEN BigGet(fill, T, r)
+                                 ELSE IF e.m = "rank1" THEN BigRank(1, fill, base, T, P1, r)
+                                 ELSE IF e.m = "rank0" THEN BigRank(0, fill, base, T, P0, r)
+                                 ELSE IF e.m = "select1"
+                                 THEN (IF relform THEN BigSelectRel(1, fill, base, P1, r) ELSE BigSelectAbs(1, fill, base, P1, r))
+                                 ELSE (IF relform THEN BigSelectRel(0, fill, base, P0, r) ELSE BigSelectAbs(0, fill, base, P0, r))
                     bad == {j \in K : e.out[j] \notin cl(j).exp}
                     tags == {pre \o cl(j).tag : j \in K}
                     First(tg) == CHOOSE j \in bad : cl(j).tag = tg /\ \A jj \in bad : cl(jj).tag = tg => j <= jj
@@ -707,8 +708,11 @@ MetaBig ==
                     F(f, exp) == IF e[f] = <<NA>> THEN ResOk(0, {})
                                  ELSE IF e[f] = exp THEN ResOk(1, {pre \o f})
                                  ELSE ResBad(Mis(e, o, pre \o f, 0, 0, e[f], {exp}), {pre \o f})
-                IN  Advance(Merge(<<F("len", BigAdd(d.base, Len(T))), F("ones", SmallNum(ones)),
-                                    F("zeros", BigAdd(d.base, Len(T) - ones)), F("zeros_trait", BigAdd(d.base, Len(T) - ones))>>), objs)
+                    fill == IF Has(d, "fill") THEN d.fill ELSE 0
+                    nones == IF fill = 1 THEN BigAdd(d.base, ones) ELSE SmallNum(ones)
+                    nzeros == IF fill = 0 THEN BigAdd(d.base, Len(T) - ones) ELSE SmallNum(Len(T) - ones)
+                IN  Advance(Merge(<<F("len", BigAdd(d.base, Len(T))), F("ones", nones),
+                                    F("zeros", nzeros), F("zeros_trait", nzeros)>>), objs)
 
 \* word-level utilities (C17)
 UtilEv ==
